@@ -306,6 +306,9 @@ def kTimestamp := ofString "_timestamp"
 def kRemote := ofString "_remote_addr"
 def kLocal := ofString "_local_addr"
 
+/-- the adjusted location as a header value (`unk` when the URL is outside the modelled grammar) -/
+def adjVal (loc : Bytes) (a0 : Addr) : Val := match adjustUrl loc a0 with | some u => .str u | .none => .unk
+
 /-- the `extra` dict of `_cached_decode_ssdp_packet` -/
 def extras (pairs : List (Bytes × Bytes)) (udn : Option Bytes) (a0 : Addr) : PyDict Bytes Val :=
   let extra : PyDict Bytes Val := [(kHost, .str (hostString a0))]
@@ -314,8 +317,7 @@ def extras (pairs : List (Bytes × Bytes)) (udn : Option Bytes) (a0 : Addr) : Py
     | .none => extra
   let location := (mdGet pairs kLocation).getD []
   if allPyWs location then extra
-  else PyDict.set (PyDict.set extra kLocOrig (.str location)) kLocation
-        (match adjustUrl location a0 with | some u => .str u | .none => .unk)
+  else PyDict.set (PyDict.set extra kLocOrig (.str location)) kLocation (adjVal location a0)
 
 /-- `CaseInsensitiveDict(parsed_headers, **extra)` -/
 def headersOf (pairs : List (Bytes × Bytes)) (udn : Option Bytes) (a0 : Addr) : Hdrs :=
